@@ -2,3 +2,19 @@ from _common import *
 GROUPS = [
     order_group('C01', 'C01.O1.event_order', 'ORDER_EVENT', 'heap_order_check', 'src/cmb_event.c', also=['C02']),
 ]
+
+_ev_f = ['cmb_event_schedule', 'cmb_event_execute_next', 'cmb_event_cancel', 'cmb_event_reschedule', 'cmb_event_reprioritize', 'cmb_event_pattern_find/_count/_cancel',
+         'cmb_event_is_scheduled/_time/_priority/_current', 'cmb_event_queue_count/_clear/_initialize/_is_empty', 'wake_event_waiters', 'cmi_event_add_waiter']
+_ev_stubs = ['cmi_hashheap.c replaced by its contract stub harness/hhstub.h (sorted small array that may move on every enqueue; contract established in C02)',
+             'cmi_mempool_expand: one fresh object', 'cmi_coroutine_resume / cmi_process_remove_awaitable: recording stubs']
+def _ev(gid, entry, define, bound, extra=(), timeout=600, tier='quick'):
+    return Group(id=gid, prop='C01', harness='event.c', entry=entry, defines=[define] + list(extra), level='bounded-shape', bound=bound, backend='sat',
+                 timeout=timeout, tier=tier, unwind=8, functions=_ev_f, stubs=_ev_stubs, also=['C10', 'C04'], replay=replays.demo_replay('c01_event_demo.c', 'c01_clear_demo.c'),
+                 assumes=['2^64 handles are never issued', 'actions reach library state only through the API'])
+_ops = ['schedule', 'cancel', 'reschedule', 'reprioritize', 'pattern_find_count', 'pattern_cancel', 'clear']
+GROUPS += [
+] + [_ev('C01.O2.execute_next.%s' % nm, 'h_execute', 'H_EXECUTE', 'arbitrary pending set of <= 3 events incl. time/priority ties; the running action %s' % txt, extra=['CMV_NESTED=%d' % k])
+     for k, nm, txt in [(-1, 'plain', 'makes no API call'), (0, 'schedules', 'schedules another event (the heap may move)'), (1, 'cancels', 'cancels an arbitrary event'),
+                        (2, 'reprioritizes', 'reprioritises an arbitrary event'), (3, 'reschedules', 'reschedules an arbitrary event'), (4, 'clears', 'clears the queue')]] + [
+    _ev('C01.O2.event_waiters', 'h_waiters', 'H_WAITERS', '<= 2 pending events, <= 2 processes waiting for the front event'),
+] + [_ev('C01.O3.api.%s' % nm, 'h_api', 'H_API', 'arbitrary pending set of <= 3 events; %s with any handle / pattern' % nm, extra=['CMV_OP=%d' % i], tier=('thorough' if nm == 'pattern_cancel' else 'quick'), timeout=(1800 if nm == 'pattern_cancel' else 600)) for i, nm in enumerate(_ops)]
